@@ -1,4 +1,5 @@
 import ActixModel.Proofs.ReqPool
+import ActixModel.Proofs.ReqPoolSim
 /-
 C11 — requests are isolated: nothing from an earlier request is visible in a later one.
 
@@ -134,6 +135,73 @@ theorem C11_no_leak (cfg : Cfg) (cap : Nat) (ops : List Op) (id : Nat) (i : Inne
   · exact absurd hb hn
 
 
+/-- **C11_shutdown_releases**: once the service has been dropped and the last outstanding
+handle is gone, no allocation is left (so the application data, the pool and the connection data
+they reference are released; a pooled allocation that survived would keep the pool alive through
+its own `app_state` reference) -/
+theorem C11_shutdown_releases (cfg : Cfg) (cap : Nat) (ops : List Op)
+    (hdead : (runW cfg (World.init cap) ops).svcAlive = false)
+    (hnone : (runW cfg (World.init cap) ops).slots = []) :
+    (runW cfg (World.init cap) ops).heap = [] ∧ aliveApp (runW cfg (World.init cap) ops) = 0 := by
+  have h := C11_pool_inv cfg cap ops
+  have hen := runW_dead_disabled cfg ops (World.init cap) (by intro h; cases h) hdead
+  have hheap := heap_empty_of_unreferenced h hnone (h.disabled hen)
+  exact ⟨hheap, by simp [aliveApp, hdead, hheap]⟩
+
+/-! ## The request head's own pool (actix-http) -/
+
+/-- **C11_head_pool_fresh**: whatever heads the thread-local pool holds, and whichever fields the
+builder of the request leaves untouched, the head of a new `Request` is the one built from
+`RequestHead::default()` (holds for the code after the `fix:` commit to `RequestHead::clear`). -/
+theorem C11_head_pool_fresh (pool : List Head) (s : HeadSpec) :
+    buildHead (headGet headClear pool).1 s = buildHead Head.default s := by
+  cases pool with
+  | nil => rfl
+  | cons h t => cases h; rfl
+
+/- Full statement for the code BEFORE the fix (`RequestHead::clear` resetting only flags and
+headers) is false:
+   C11_head_pool_fresh_old (pool) (s) :
+     buildHead (headGet headClearOld pool).1 s = buildHead Head.default s
+It holds only for builders that overwrite every scalar field: -/
+theorem C11_head_pool_old_full_builders (pool : List Head) (s : HeadSpec)
+    (hm : s.method.isSome) (hu : s.uri.isSome) (hv : s.version.isSome) (hp : s.peer.isSome) :
+    buildHead (headGet headClearOld pool).1 s = buildHead Head.default s := by
+  obtain ⟨m, u, v, p, hs⟩ := s
+  cases m <;> cases u <;> cases v <;> cases p <;> simp_all
+  cases pool with
+  | nil => rfl
+  | cons h t => cases h; rfl
+
+/-- hypotheses of the partial statement are satisfiable: the h1 decoder + dispatcher write all -/
+example : (HeadSpec.mk (some "GET") (some "/x") (some "11") (some none) []).method.isSome := rfl
+
+/-- witness (defect F15, fixed): `actix_http::test::TestRequest::finish` sets method, uri, version
+and headers but not the peer address; with the old `clear`, a head recycled from a request that
+came from `127.0.0.1:1001` makes the new request appear to come from there -/
+theorem witness_stale_peer_before_fix :
+    (buildHead (headGet headClearOld [⟨"GET", "/u/1", "11", some 1001, []⟩]).1
+        ⟨some "GET", some "/u/3", some "11", none, []⟩).peer = some 1001 ∧
+    (buildHead Head.default ⟨some "GET", some "/u/3", some "11", none, []⟩).peer = none := by
+  decide
+
+/-! ## Refinement: recycling is unobservable -/
+
+/-- **C11_pool_transparent**: for every history, the outputs of *all* operations (every dump of
+every request, every dump through a stashed clone, every `ok`/`-`) are the same whatever the pool
+capacity — in particular the same as with capacity 0, i.e. a service that never recycles an
+allocation and builds every request with `HttpRequest::new`.  Proof: simulation up to a renaming
+of allocation ids (`Proofs/ReqPoolSim.lean`). -/
+theorem C11_pool_transparent (cfg : Cfg) (cap cap' : Nat) (ops : List Op) :
+    (run cfg (World.init cap) ops).2 = (run cfg (World.init cap') ops).2 :=
+  run_rel ops (init_inv cfg cap) (init_inv cfg cap') (init_rel cap cap')
+
+/-- the reference implementation really never recycles: with capacity 0 the pool stays empty -/
+theorem C11_no_pool_reference (cfg : Cfg) (ops : List Op) :
+    (runW cfg (World.init 0) ops).pool = [] := by
+  have := C11_pool_bounded cfg 0 ops
+  exact List.length_eq_zero_iff.mp (Nat.le_zero.mp this)
+
 /-! ## Non-vacuity: concrete histories that satisfy the hypotheses above (kernel-evaluated) -/
 
 private def rq (uri : String) : Req := ⟨⟨"GET", uri, "11", none, []⟩, none, []⟩
@@ -157,5 +225,9 @@ example : (runW theCfg (World.init 1)
 example : ((runW theCfg (World.init 1)
     [.serve (rq "/") [.stash 1], .serve (rq "/") [.stash 2], .serve (rq "/") [.stash 3],
      .drop 1, .drop 2, .drop 3]).heap.map (·.1)) = [0] := by decide
+/-- hypotheses of `C11_shutdown_releases`: service dropped while a clone is alive, clone dropped later -/
+example : (runW theCfg (World.init 2) [.serve (rq "/u/1") [.stash 1], .serve (rq "/") [], .disable, .drop 1]).svcAlive = false ∧
+    (runW theCfg (World.init 2) [.serve (rq "/u/1") [.stash 1], .serve (rq "/") [], .disable, .drop 1]).slots = [] := by
+  decide
 
 end ActixModel.ReqPool.C11
